@@ -5,6 +5,7 @@ Oracle (independent of every model): direct differential of the two REAL backend
 (1) the witness programs of recorded findings, (2) the generated CoreS stream in prefix / infix / mixed spelling,
 (3) the repository's own example and test programs (CoreX: structs, enums, unions, tuples, arrays, strings, imports)."""
 import os, sys, glob, random, collections, json, hashlib
+import c01_intfmt
 import vlib, progen, langlib, lang_findings
 import c02
 
@@ -29,8 +30,9 @@ def first_diff(a, b):
 
 def run(ck):
     b = ck.build('plain')
-    ck.gen(['gen_isa'])
+    ck.gen(['gen_isa', 'gen_intfmt'])
     ck.prove()
+    c01_intfmt.tie(ck, b)
     for k in ('classes', 'features', 'styles'):
         ck.extra[k] = collections.Counter()
     # ---- 1+2: witnesses and generated stream, both real backends, three spellings
